@@ -105,6 +105,17 @@ fn gen_value_only_block(rng: &mut ibv::SplitMix64) -> Vec<Step> {
     steps
 }
 
+/// the program through a sorting collector (kind "sorted"): which = 0 collect_seq_sorted,
+/// 1 collect_par_sorted, 2 collect_par_sorted_by_key
+fn emit_sorted(em: &mut Emitter, src: &Src, steps: &[Step], mode: Mode, which: usize, extra: &[&str]) {
+    let mut tags = case_tags(src, steps, mode, extra);
+    tags.push(["collect_seq_sorted", "collect_par_sorted", "collect_par_sorted_by_key"][which].into());
+    let tr: Vec<&str> = tags.iter().map(String::as_str).collect();
+    let mut input = case_input(src, steps, mode);
+    input.as_array_mut().unwrap().push(serde_json::json!(which));
+    em.case("sorted", input, src.len() >= 2, &tr);
+}
+
 fn emit_try(em: &mut Emitter, src: &Src, steps: &[Step], extra: &[&str]) {
     // a program ending in try_map is also run through collect_fail_fast (sequential)
     if matches!(steps.last(), Some(Step::TryMap(..))) {
@@ -186,6 +197,25 @@ fn generate(seed: u64, tier: Tier, em: &mut Emitter) {
             }
         }
     }
+    // custom sources whose VecOps::len answers None ("size unknown"): every program of the sweep,
+    // zero steps included, sequentially and with several requested partition counts
+    for n in [0usize, 1, 2, 9, 24] {
+        for (j, (shape, steps)) in progs.iter().enumerate() {
+            for mode in [Mode::Seq, Mode::Par(0), Mode::Par(1), Mode::Par(3), Mode::Par(n + 2)] {
+                if steps.iter().any(|s| matches!(s, Step::MapBatches(_, BFun::Header))) && mode != Mode::Seq {
+                    continue;
+                }
+                if tier == Tier::Quick && (n + j) % 2 == 1 && mode != Mode::Par(3) {
+                    continue;
+                }
+                let src = match sweep_src(*shape, n, n + j, &mut rng) {
+                    Src::Vec(sh, d) => Src::NoLen(sh, d),
+                    other => other,
+                };
+                emit(em, &src, steps, mode, &["sweep", "nolen_source"]);
+            }
+        }
+    }
     // value-only blocks (mostly inside the known-finding class; the rest must agree exactly)
     let mut rng = seed_mix(seed, 0xC02_0001);
     for _ in 0..(if tier == Tier::Quick { 80 } else { 400 }) {
@@ -234,6 +264,29 @@ fn generate(seed: u64, tier: Tier, em: &mut Emitter) {
             emit_try(em, &u, &steps, &["sweep", "try_map"]);
         }
     }
+    // sorting collectors: rows with REPEATED keys and distinguishable values (the value is the row
+    // index), more rows than any small-slice special case of a sort routine (20, 32, 64), keys in
+    // runs / alternating / descending, so that a stable sort by key differs from a full sort and
+    // from any unstable one
+    for n in [0usize, 1, 2, 19, 20, 21, 22, 33, 50, 65, 130, 300] {
+        for (pi, keyf) in [|i: usize, _n: usize| (i % 3) as i64, |i, n| ((n - i) / 4) as i64, |i, _n| ((i * 7) % 5) as i64,
+                           |_i, _n| 0i64].into_iter().enumerate() {
+            if tier == Tier::Quick && (n + pi) % 2 == 1 && n != 21 && n != 50 {
+                continue;
+            }
+            let rows: Vec<Val> = (0..n).map(|i| pair(Val::Int(keyf(i, n)), Val::Int((n - i) as i64 * 3 % 17 + (i as i64) * 100))).collect();
+            let kv = Src::Vec(Shape::KV, rows);
+            for parts in [1usize, 3, 8] {
+                emit_sorted(em, &kv, &[], Mode::Par(parts), 2, &["sweep", "sorted"]);
+                if parts == 3 {
+                    emit_sorted(em, &kv, &[Step::MapValues(EFun::Add(1)), Step::Filter(PFun::Not(Box::new(PFun::ModEq(7, 3))))],
+                                Mode::Par(parts), 2, &["sweep", "sorted"]);
+                    emit_sorted(em, &kv, &[Step::MapValues(EFun::Mod(3))], Mode::Par(parts), 1, &["sweep", "sorted"]);
+                }
+            }
+            emit_sorted(em, &kv, &[Step::MapValues(EFun::Mod(4))], Mode::Seq, 0, &["sweep", "sorted"]);
+        }
+    }
     // branching programs: targeted (the base ends in a filter / map) and random
     for (i, (shape, pre, a, b)) in targeted_branches().into_iter().enumerate() {
         for (n, parts) in [(7usize, None), (9, Some(3)), (2, Some(5))] {
@@ -268,6 +321,16 @@ fn generate(seed: u64, tier: Tier, em: &mut Emitter) {
         }
     }
     big.push(("bigprog", range_src(Shape::U, 70_001), big_chain(), Mode::Seq));
+    // chunk-sensitive batch functions with batch sizes beyond any internal buffer cap, over one
+    // partition that is longer than the batch (sequential run = one partition = the list
+    // interpretation): the slices handed to the function must be exactly `batch` long
+    for (n, b) in [(10_001usize, 5000usize), (10_001, 4097), (20_000, 9000), (9000, 100_000)] {
+        if tier == Tier::Quick && n != 10_001 {
+            continue;
+        }
+        big.push(("bigprog", range_src(Shape::KV, n), vec![Step::MapValuesBatches(b, BFun::Rev)], Mode::Seq));
+        big.push(("bigprog", range_src(Shape::U, n), vec![Step::MapBatches(b, BFun::Rev), Step::MapBatches(b + 1, BFun::Header)], Mode::Seq));
+    }
     let mut spread = Spread::new(big, count);
     for _ in 0..count {
         spread.step(em);
@@ -293,6 +356,15 @@ fn generate(seed: u64, tier: Tier, em: &mut Emitter) {
             emit_try(em, &src, &steps, &["random"]);
         }
         emit(em, &src, &steps, mode, &["random"]);
+        if rng.chance(1, 6) && !steps.iter().any(|s| matches!(s, Step::TryMap(..)))
+            && !steps.iter().any(|s| matches!(s, Step::MapBatches(_, BFun::Header))) {
+            let which = match (mode, sim.shape) {
+                (Mode::Seq, _) => 0,
+                (_, Shape::KV | Shape::KG | Shape::KW) if rng.chance(2, 3) => 2,
+                _ => 1,
+            };
+            emit_sorted(em, &src, &steps, mode, which, &["random", "sorted"]);
+        }
     }
     spread.finish(em);
 }
@@ -301,6 +373,7 @@ fn run(kind: &str, input: &Value) -> Value {
     match kind {
         "prog" => run_prog_case(input, DIR),
         "bigprog" => run_bigprog_case(input, DIR),
+        "sorted" => run_sorted_case(input, DIR),
         "failfast" => run_failfast_case(input, DIR),
         "branch" => run_branch_case(input, DIR),
         _ => serde_json::json!(["invalid"]),
